@@ -30,7 +30,7 @@ def main():
         res['applies'] = (rc == 0)
         rc1, o1 = sh('/venv/bin/python %s' % os.path.join(d, 'equiv.py'), cwd=wt, env=env)
         res['equivalent'] = (rc0 == 0 and rc1 == 0 and o0.strip().splitlines()[-1:] == o1.strip().splitlines()[-1:])
-        rc, out = sh('/venv/bin/python -m pytest -q -p no:cacheprovider -x', cwd=wt)
+        rc, out = sh('/venv/bin/python -m pytest -q -p no:cacheprovider -x', cwd=wt, env=env)
         res['tests_pass_with'] = (rc == 0)
         res['checks'] = {}
         for p in [pid] + extra:
